@@ -63,8 +63,8 @@ def _cases(draw):
         cats = draw(st.lists(st.sampled_from(pool), min_size=1, max_size=4, unique=True))
         variants.append({"cats": sorted(cats), "split": draw(st.lists(st.integers(1, n - 1), min_size=1, max_size=2, unique=True)),
                          "output_mult": draw(st.sampled_from([2, 3, 1.5, 2.5])), "sched": draw(st.lists(st.integers(0, 11), min_size=3, max_size=8)),
-                         "salt": draw(st.integers(1, 10**6)), "drop_add": draw(st.integers(0, 2)), "remove": draw(st.integers(1, nt - 1)), "policy": draw(st.sampled_from(["MyopicNaiveGreedyDecision", "RandomDecision"]))})
-    return {"start": iso(t0), "dt": dt, "n": n, "model": model, "filter_model": draw(st.sampled_from(["two_body", "special_perturbations"])), "adds": adds, "integrator": draw(st.sampled_from(["RK45", "DOP853"])), "targets": targets,
+                         "salt": draw(st.integers(1, 10**6)), "drop_add": draw(st.integers(0, 2)), "remove": draw(st.integers(0, nt - 1)), "policy": draw(st.sampled_from(["MyopicNaiveGreedyDecision", "RandomDecision"]))})
+    return {"start": iso(t0), "dt": dt, "n": n, "model": model, "filter_model": draw(st.sampled_from(["two_body", "special_perturbations"])), "adds": adds, "srp": draw(st.booleans()), "integrator": draw(st.sampled_from(["RK45", "DOP853"])), "targets": targets,
             "events": events, "variants": variants}
 
 
@@ -74,7 +74,8 @@ def _config(c, v=None):
     dt, n = c["dt"], c["n"]
     tgts = []
     for j, t in enumerate(c["targets"]):
-        tgts.append(kit.eci_target(13001 + j, kit.circular_state_over(SITE[0], SITE[1], t0, t["r"], heading_deg=t["head"], offset_deg=(t["dlat"], t["dlon"]))))
+        tgts.append(kit.eci_target(13001 + j, kit.circular_state_over(SITE[0], SITE[1], t0, t["r"], heading_deg=t["head"], offset_deg=(t["dlat"], t["dlon"])),
+                                   mass=300.0 + 400.0 * j, visual_cross_section=4.0 + 9.0 * ((j * 7) % 3), reflectivity=0.15 + 0.1 * j))
     sensor_over = {"slew_rate": 1.0, "field_of_view": {"fov_shape": "conic", "cone_angle": 30.0}} if "sensor" in cats else {}
     cov = [[1e-6, 0, 0, 0], [0, 1e-6, 0, 0], [0, 0, 1.0, 0], [0, 0, 0, 1e-6]] if "sensor" in cats else [[1e-7, 0, 0, 0], [0, 1e-7, 0, 0], [0, 0, 0.01, 0], [0, 0, 0, 1e-7]]
     sens = [kit.ground_sensor(23001, SITE[0], SITE[1], covariance=cov, **sensor_over),
@@ -117,7 +118,9 @@ def _config(c, v=None):
     return kit.scenario_config(t0, t0 + timedelta(seconds=(n + 1) * dt), dt, [eng], events=evs, model=c["model"], filter_model=fm,
                                integrator=c["integrator"], truth_only="truth_only" in cats, noise=noise, seq_filter=seq,
                                output_dt=int(dt * v["output_mult"]) if "output" in cats else dt,
-                               geopotential={"model": "egm96.txt", "degree": 4, "order": 4}, perturbations={"third_bodies": ["sun", "moon"]})
+                               geopotential={"model": "egm96.txt", "degree": 4, "order": 4},
+                               # (solar radiation pressure makes the truth dynamics agent specific: area-to-mass ratio and reflectivity)
+                               perturbations={"third_bodies": ["sun", "moon"], "solar_radiation_pressure": bool(c.get("srp", False))})
 
 
 def _run(c, v=None):
@@ -189,6 +192,7 @@ def variants(c, rec):
         for cat in cats:
             rec.label("cat:" + cat)
         rec.label(f"midrun_additions:{len(c.get('adds', []))}")
+        rec.label("srp_on" if c.get("srp") else "srp_off")
         common = set(mem0) & set(mem1)
         if len(common) < c["n"] * 2:
             raise Violation("variant_incomplete", f"variant {cats}: only {len(common)} common (agent, step) truth states")
